@@ -227,3 +227,99 @@ func genGuardEdges(out *bufio.Writer) {
 		fmt.Fprintf(out, "len g %s\n", G(l))
 	}
 }
+
+// genExtremes (round h): centroids at the two ends of the float64 range.  Polygons and multi-polygons (holes, any start
+// vertex, either direction, closed / unclosed) whose coordinates are small integer multiples of 2^-1074 .. 2^-1060 —
+// the WHOLE extent on an axis is subnormal (a power-of-two scale factor of such an axis has no representable
+// reciprocal: 1/2^-1025 = +Inf) — on one axis, on both, or on one axis with the other ordinary or huge; the window
+// 2^-1034 .. 2^-1016 around the smallest normal number; and the mirror stratum with extents 2^1000 .. 2^1022 (no
+// coordinate difference reaches 2^1024).  Only cent / mcent lines: the areas are not representable there.  The judge
+// measures against the exact rational centroid with a tolerance relative to the extent, never below one step of the
+// subnormal grid (2^-1074).
+func genExtremes(out *bufio.Writer, seed uint64, tier string) {
+	r := vproto.NewRng(seed ^ 0x0c03e87e)
+	G := func(g geom.Geom) string { return vproto.GeomToks(g) }
+	spellAll := func(p []ring, closedAll bool) []ring {
+		q := make([]ring, len(p))
+		for j := range p {
+			q[j] = respell(p[j], spell{rev: r.Bool(), rot: rotChoices(len(p[j]))[r.Intn(4)], closed: closedAll || r.Bool()})
+		}
+		return q
+	}
+	emit := func(p []ring) {
+		fmt.Fprintf(out, "cent f%s %s\nmcent f%s %s\n", lay(r), G(toPoly(p)), lay(r), G(geom.MultiPolygon{toPoly(p)}))
+	}
+	// ---- fixed corpus ----
+	sq4 := ring{pt(0, 0), pt(4, 0), pt(4, 4), pt(0, 4)}
+	tr4 := ring{pt(0, 0), pt(4, 0), pt(0, 4)} // centroid 4/3: not on the grid, the best answer is 1 step of 2^-1074 off at most
+	big := ring{pt(0, 0), pt(10, 0), pt(10, 10), pt(0, 10)}
+	hole := ring{pt(4, 4), pt(6, 4), pt(6, 7), pt(4, 7)}
+	for _, e := range []int{-1074, -1073, -1070, -1060, -1030, -1026, -1025, -1024, -1022, 1000, 1013, 1019} {
+		for _, o := range [][2]int{{0, 0}, {5, 3}, {-7, 0}, {0, 9}} {
+			for _, base := range [][]ring{{sq4}, {tr4}, {big, hole}} {
+				if e == 1019 && len(base) == 2 {
+					continue
+				}
+				tb := translateRings(base, float64(o[0]), float64(o[1]))
+				for c := 0; c < 4; c++ {
+					q := make([]ring, len(tb))
+					for j := range tb {
+						q[j] = respell(tb[j], spell{rev: (c&1 == 1) != (j > 0), rot: c, closed: c < 3})
+					}
+					emit(scaleRings(q, e))
+				}
+			}
+		}
+		two := geom.MultiPolygon{toPoly(scaleRings([]ring{respell(sq4, spell{closed: true})}, e)),
+			toPoly(scaleRings(translateRings([]ring{respell(sq4, spell{closed: true, rev: true, rot: 2})}, 8, 6), e))}
+		fmt.Fprintf(out, "mcent f %s\n", G(two))
+		// one axis extreme, the other ordinary
+		emit(scaleRingsXY([]ring{respell(sq4, spell{closed: true})}, e, 0))
+		emit(scaleRingsXY([]ring{respell(big, spell{closed: true}), respell(hole, spell{closed: true, rev: true})}, 0, e))
+	}
+	// ---- random ----
+	n := 45
+	if tier == "thorough" {
+		n = 600
+	}
+	subE := func() int { return r.Range(-1074, -1060) }
+	edgeE := func() int { return r.Range(-1034, -1023) } // coordinates < 2^7: the largest one falls on either side of 2^-1024
+	topE := func() int { return r.Range(993, 1013) }
+	for i := 0; i < n; i++ {
+		var base []ring
+		if i%3 == 0 { // small shapes: multiples 0..15 of the grid step
+			for try := 0; try < 50 && base == nil; try++ {
+				q := make(ring, r.Range(3, 6))
+				tx, ty := r.Range(0, 9), r.Range(0, 9)
+				for j := range q {
+					q[j] = pt(r.Range(0, 6)+tx, r.Range(0, 6)+ty)
+				}
+				if simpleRing(q) && shoelace2(q) != 0 {
+					base = []ring{q}
+				}
+			}
+			if base == nil {
+				base = []ring{sq4}
+			}
+		} else {
+			base = basePoly(r, []int{0, 1, 1, 2, 3}[r.Intn(5)], r.Range(-40, 40), r.Range(-40, 40))
+		}
+		for _, ex := range [][2]int{{subE(), 0}, {0, subE()}, {subE(), subE()}, {edgeE(), edgeE()}, {topE(), topE()}, {topE(), 0}, {0, topE()}, {subE(), topE()}, {topE(), subE()}} {
+			ex := ex
+			if r.Intn(3) == 0 && ex[0] != 0 && ex[1] != 0 && (ex[0] < 0) == (ex[1] < 0) {
+				ex[1] = ex[0] // isotropic
+			}
+			emit(scaleRingsXY(spellAll(base, r.Intn(4) != 0), ex[0], ex[1]))
+		}
+		// multi-polygons: two or three members side by side (coordinates < 2^9)
+		if i%2 == 0 {
+			for _, e := range []int{subE(), topE() - 1} {
+				var mems geom.MultiPolygon
+				for k := 0; k < r.Range(2, 3); k++ {
+					mems = append(mems, toPoly(scaleRings(spellAll(basePoly(r, r.Range(0, 2), 150*k, r.Range(-40, 40)), r.Intn(4) != 0), e)))
+				}
+				fmt.Fprintf(out, "mcent f%s %s\n", lay(r), G(mems))
+			}
+		}
+	}
+}
